@@ -30,6 +30,7 @@ CHAINS = {
     'many-rows': (['self', 'self', 'self', 'self', 'self', 'self', 'old', 'new'], 'FFFFFFH-'),
     'few-rows': (['fan', 'opret', 'empty', 'self', 'multi', 'chain2'], '--F---'),
 }
+LIMITS = {'server': 5, 'tool': 5}     # REORG_LIMIT of the server's and of the tool's environment
 MORE = ['self', 'multi']            # blocks indexed after the compaction
 # scripts whose hashX starts with fffe / ffff: the last two prefixes of the compaction cursor
 SCRIPT_Y = bytes.fromhex('5153790000')
@@ -100,7 +101,7 @@ def build_db(chain_name):
     recipes, flush = CHAINS[chain_name]
     sim = indexrun.chain_for(recipes)
     m = world.Machine()
-    w = world.World(m, reorg_limit=5, activation=ACT)
+    w = world.World(m, reorg_limit=LIMITS['server'], activation=ACT)
     w.daemon.set_chain(sim.blocks)
     w.flush_schedule = indexrun.flush_map(flush)
     w.start_sync()
@@ -112,7 +113,7 @@ def build_db(chain_name):
 
 
 def open_compacting(m, max_rows):
-    w = world.World(m, reorg_limit=5, activation=ACT)
+    w = world.World(m, reorg_limit=LIMITS['tool'], activation=ACT)
     w.db.history.max_hist_row_entries = max_rows
     w.loop.run_coro(w.db.open_for_compacting(), fire_timers=False)
     return w
@@ -154,7 +155,7 @@ def carve_out_ok(before, max_rows, flush_count):
 def continue_serving(m, sim, before, res, failures, label, then, max_rows=12500):
     '''Start the server on the database: same histories; then index more / reorg.'''
     blocks = sim.blocks
-    w = world.World(m, reorg_limit=5, activation=ACT)
+    w = world.World(m, reorg_limit=LIMITS['server'], activation=ACT)
     try:
         w.daemon.set_chain(blocks)
         w.start_sync()
@@ -188,7 +189,7 @@ def continue_serving(m, sim, before, res, failures, label, then, max_rows=12500)
                     wc.close(destroy=False)
                 if failures:
                     return
-            w = world.World(m, reorg_limit=5, activation=ACT)
+            w = world.World(m, reorg_limit=LIMITS['server'], activation=ACT)
             w.daemon.set_chain(blocks)
             w.start_sync()
             try:
@@ -222,7 +223,7 @@ def continue_serving(m, sim, before, res, failures, label, then, max_rows=12500)
                 wc.close(destroy=False)
             if failures:
                 return
-            w = world.World(m, reorg_limit=5, activation=ACT)
+            w = world.World(m, reorg_limit=LIMITS['server'], activation=ACT)
             ext2 = indexrun.chain_for(rec + more_for(sim))
             w.daemon.set_chain(ext2.blocks)
             w.start_sync()
@@ -247,8 +248,10 @@ def continue_serving(m, sim, before, res, failures, label, then, max_rows=12500)
         w.daemon.set_chain(final)
         try:
             w.poll()
-            if then == 'index+reorg':
-                y = reorgrun.make_branch(list(sim_recipes(sim)) + more_for(sim), 1, ['replay', 'new'], b'Y', ext)
+            if then in ('index+reorg', 'index+deep-reorg'):
+                d = 1 if then == 'index+reorg' else 5
+                y = reorgrun.make_branch(list(sim_recipes(sim)) + more_for(sim), d,
+                                         ['replay'] + ['new'] * d, b'Y', ext)
                 final = y.blocks
                 w.daemon.set_chain(final)
                 w.poll()
@@ -282,6 +285,15 @@ def more_for(sim):
 
 
 def run_case(case, res):
+    LIMITS['server'] = case.get('server_limit', 5)
+    LIMITS['tool'] = case.get('tool_limit', 5)
+    try:
+        return run_case_(case, res)
+    finally:
+        LIMITS['server'] = LIMITS['tool'] = 5
+
+
+def run_case_(case, res):
     chain_name, max_rows, limit = case['chain'], case['rows'], case['limit']
     mode = case['mode']
     m, sim, before, flush_count = build_db(chain_name)
@@ -351,7 +363,7 @@ def run_case(case, res):
         if mode == 'tool':
             # the real coroutine of the tool, in one go
             tool = load_tool()
-            w = world.World(m, reorg_limit=5, activation=ACT)   # sets the environment variables
+            w = world.World(m, reorg_limit=LIMITS['tool'], activation=ACT)   # sets the environment variables
             w.close(destroy=False)
             import electrumx.server.history as histmod
             orig_init = histmod.History.__init__
@@ -430,6 +442,12 @@ def cases_for(tier):
                 cases.append(dict(chain=chain_name, rows=rows, limit=8_000_000, mode='tool', then=then))
             cases.append(dict(chain=chain_name, rows=rows, limit=64, mode='stop-resume', k=2,
                               then='tool-again'))
+            # the tool run "with just DB_DIRECTORY and COIN set" (its own, smaller REORG_LIMIT) on
+            # the database of a server configured with a larger one; then a reorganisation deeper
+            # than the tool's limit but within the server's
+            for mode, k in (('tool', None), ('stop-resume', 2)):
+                cases.append(dict(chain=chain_name, rows=rows, limit=8_000_000 if k is None else 64,
+                                  mode=mode, k=k, then='index+deep-reorg', server_limit=50, tool_limit=2))
             for limit in (1, 64, 8_000_000):
                 ks = range(1, 10) if limit == 1 else (1, 2, 3) if limit == 64 else (None,)
                 for k in ks:
